@@ -120,11 +120,13 @@ theorem srcIdx_quarter (n0 n1 i1 i2 : Nat) (k : Int) (hord : (i1 = 0 ∧ i2 = 1)
     unfold srcIdx; rw [if_neg a0, if_neg a2, if_neg a1]; simp [swapAt, setAt]
 
 /-- EVERY QUARTER TURN.  `Field.rotate90` with odd `k` in the plane of the two axes (named in either
-order) of a 2-d three-component field with open boundaries returns a field `g` such that `g` is a
-quarter turn of `f` or `f` is a quarter turn of `g` (`QTurn`, with a proper rotation of the vectors) -/
-theorem rotate90F_quarter (f recv g : Fld) (a1 a2 : String) (k : Int) (ref : Option (List Rat)) (b : Bool)
+order) of a 2-d three-component field returns a field `g` such that `g` is a
+quarter turn of `f` or `f` is a quarter turn of `g` (`QTurn`, with a proper rotation of the vectors) —
+given that the periodicity flags of the two axes are exchanged (`hper`; open boundaries:
+`rotate90F_quarter`, periodic ones: `Lemmas/C19QuarterBc`) -/
+theorem rotate90F_quarter_of (f recv g : Fld) (a1 a2 : String) (k : Int) (ref : Option (List Rat)) (b : Bool)
     (hf : FldInv f) (h2 : f.mesh.ndim = 2) (h3 : f.nvdim = 3) (hlen : ∀ i, (f.data.get i).length = 3)
-    (hbc : f.mesh.bc = "") (i1 i2 : Nat)
+    (hper : periodic g 0 = periodic f 1 ∧ periodic g 1 = periodic f 0) (i1 i2 : Nat)
     (hi1 : f.mesh.region.dim2index a1 = .ok i1) (hi2 : f.mesh.region.dim2index a2 = .ok i2)
     (hord : (i1 = 0 ∧ i2 = 1) ∨ (i1 = 1 ∧ i2 = 0)) (hk : k % 2 = 1)
     (hvd : ∀ vs, f.vdims = some vs → vs.length = 3)
@@ -154,12 +156,6 @@ theorem rotate90F_quarter (f recv g : Fld) (a1 a2 : String) (k : Int) (ref : Opt
     obtain ⟨hcos, hsin⟩ := quarter_odd k hk
     rw [hcos]; rcases hsin with hs' | hs' <;> rw [hs'] <;> norm_num
   have hcs' : cosq k * cosq k + (-sinq k) * (-sinq k) = 1 := by linarith
-  have bcg : g.mesh.bc = "" := by
-    have bcg := stepM_rot_bc _ _ _ _ _ _ _ hs
-    rw [hbc] at bcg
-    have : rotBc "" a1 a2 k = "" := by unfold rotBc; simp
-    rw [this, cmToLowerEmpty] at bcg
-    exact bcg
   -- data and validity of the result, cell by cell
   have hdata : ∀ i j, cellV g [i, j]
       = (rotM c1' c2' (cosq k) (sinq k)).mulVec (cellV f (srcIdx [f.mesh.nAt 0, f.mesh.nAt 1] i1 i2 k [i, j])) := by
@@ -202,8 +198,8 @@ theorem rotate90F_quarter (f recv g : Fld) (a1 a2 : String) (k : Int) (ref : Opt
   · -- `g` is the quarter turn of `f`
     left
     refine ⟨rotM c1' c2' (cosq k) (sinq k), rotM_isRot c1' c2' _ _ hl1 hl2 hc12 hcs, n0, n1, c0, c1, ?_, ?_, ?_, ?_⟩
-    · rw [periodic_of_bc_empty g 0 bcg]; exact (periodic_of_bc_empty (rotF _ f) 1 hbc).symm
-    · rw [periodic_of_bc_empty g 1 bcg]; exact (periodic_of_bc_empty (rotF _ f) 0 hbc).symm
+    · exact hper.1
+    · exact hper.2
     · intro i j _ _
       rw [hdata, hsrc, cellV_rotF]; rfl
     · intro i j _ _
@@ -211,8 +207,8 @@ theorem rotate90F_quarter (f recv g : Fld) (a1 a2 : String) (k : Int) (ref : Opt
   · -- `f` is the quarter turn of `g`
     right
     refine ⟨rotM c1' c2' (cosq k) (-sinq k), rotM_isRot c1' c2' _ _ hl1 hl2 hc12 hcs', n1.symm, n0.symm, c1.symm, c0.symm, ?_, ?_, ?_, ?_⟩
-    · rw [periodic_of_bc_empty f 0 hbc]; exact (periodic_of_bc_empty (rotF _ g) 1 bcg).symm
-    · rw [periodic_of_bc_empty f 1 hbc]; exact (periodic_of_bc_empty (rotF _ g) 0 bcg).symm
+    · exact hper.2.symm
+    · exact hper.1.symm
     · intro i j hi hj
       have hi' : i < f.mesh.nAt 0 := by
         have : (rotF (rotM c1' c2' (cosq k) (-sinq k)) g).mesh.nAt 1 = g.mesh.nAt 1 := rfl
@@ -230,5 +226,27 @@ theorem rotate90F_quarter (f recv g : Fld) (a1 a2 : String) (k : Int) (ref : Opt
       show f.valid.get [i, j] = g.valid.get [j, f.mesh.nAt 0 - 1 - i]
       have e : f.mesh.nAt 0 - 1 - (f.mesh.nAt 0 - 1 - i) = i := by omega
       rw [hvalid, hsrc, e]
+
+/-- … with open boundaries -/
+theorem rotate90F_quarter (f recv g : Fld) (a1 a2 : String) (k : Int) (ref : Option (List Rat)) (b : Bool)
+    (hf : FldInv f) (h2 : f.mesh.ndim = 2) (h3 : f.nvdim = 3) (hlen : ∀ i, (f.data.get i).length = 3)
+    (hbc : f.mesh.bc = "") (i1 i2 : Nat)
+    (hi1 : f.mesh.region.dim2index a1 = .ok i1) (hi2 : f.mesh.region.dim2index a2 = .ok i2)
+    (hord : (i1 = 0 ∧ i2 = 1) ∨ (i1 = 1 ∧ i2 = 0)) (hk : k % 2 = 1)
+    (hvd : ∀ vs, f.vdims = some vs → vs.length = 3)
+    (hc : (f.rDim a1).bind f.vdimIndex ≠ (f.rDim a2).bind f.vdimIndex)
+    (h : rotate90F f a1 a2 k ref b = .ok (recv, g)) :
+    g.nvdim = 3 ∧ g.mesh.ndim = 2 ∧ g.data.shape = [g.mesh.nAt 0, g.mesh.nAt 1] ∧
+    ((∃ Q : M3, Q.IsRot ∧ QTurn Q f g) ∨ (∃ Q : M3, Q.IsRot ∧ QTurn Q g f)) := by
+  obtain ⟨⟨x, hs⟩, _, _⟩ := rotate90F_mesh f recv g a1 a2 k ref b h
+  have bcg : g.mesh.bc = "" := by
+    have bcg := stepM_rot_bc _ _ _ _ _ _ _ hs
+    rw [hbc] at bcg
+    have : rotBc "" a1 a2 k = "" := by unfold rotBc; simp
+    rw [this, cmToLowerEmpty] at bcg
+    exact bcg
+  exact rotate90F_quarter_of f recv g a1 a2 k ref b hf h2 h3 hlen
+    ⟨by rw [periodic_of_bc_empty g 0 bcg, periodic_of_bc_empty f 1 hbc],
+     by rw [periodic_of_bc_empty g 1 bcg, periodic_of_bc_empty f 0 hbc]⟩ i1 i2 hi1 hi2 hord hk hvd hc h
 
 end DFV.C19
